@@ -14,6 +14,8 @@ def check(ctx):
         "current_local_parent; R6 set_local_parent on a recording span always opens a scope of its own (an unsampled span's "
         "scope shields the enclosing one); R7 enter_with_parents returns a no-op span only for an empty token (not for an unsampled one); R8 the "
         "scope stack is only looked at from its top (contexts come from the innermost scope).")
+    ctx.explanation += (" R9 the scope bundle (C10's rules): scopes opened on every path and refused only when the stack is full, released "
+                        "scopes popped with nothing left behind, the stack looked at from its top only and the only per-thread context.")
     ctx.not_decided = "absence of output for all programs (every path to the queue passes the filter; programs are not enumerated)."
     facts = ctx.facts("E")
     provrules.rule_root_sampling(ctx, facts, "R1")
@@ -30,3 +32,6 @@ def check(ctx):
     from .. import spanrules
     spanrules.rule_noop_only_without_parent(ctx, facts, "R7")
     scopes.rule_span_lines_innermost_only(ctx, facts, "R8")
+    # what "the local parent in effect" needs from the scope stack (see props/common.py)
+    from .common import scope_bundle
+    scope_bundle(ctx, ctx.facts("E"), "R9")
